@@ -5,7 +5,7 @@ void h_normalize_evstar(void) { struct unpacked_node *u; struct edge_value *ev; 
     g_links = nondet_unsigned(); g_unlinks = nondet_unsigned(); g_makenodes = nondet_unsigned(); g_udr = nondet_unsigned(); g_deacts = nondet_unsigned(); \
     g_find_result = nondet_int(); g_new_handle = nondet_int(); g_computed_hash = nondet_unsigned(); g_new_addr = nondet_ulong(); g_levelsize = nondet_int(); \
     g_logging = nondet_bool(); g_has_hash = 0; g_old_addr = nondet_ulong(); g_node_hash = nondet_unsigned(); ghost_g = nondet_size_t(); ghost_h = nondet_size_t();
-void h_createReducedNode(void) { struct forest *f; struct unpacked_node *u; struct edge_value *ev; node_handle *nd; int w_in = nondet_int(); H_GHOSTS(); forest__createReducedNode(f, u, ev, nd, w_in); CANARY(); CANARY_IF(!u->is_full); CANARY_IF(u->is_full); }
+void h_createReducedNode(void) { struct forest *f; struct unpacked_node *u; struct edge_value *ev; node_handle *nd; int w_in = nondet_int(); H_GHOSTS(); w_full = nondet_bool(); forest__createReducedNode(f, u, ev, nd, w_in); CANARY(); CANARY_IF(w_full); CANARY_IF(!w_full); }
 void h_unlinkAllDown(void) { struct forest *f; struct unpacked_node *u; unsigned w_i = nondet_unsigned(); H_GHOSTS(); forest__unlinkAllDown(f, u, w_i); CANARY(); }
 
 void h_deleteNode(void) { struct forest *f; node_handle w_p = nondet_int(); H_GHOSTS(); forest__deleteNode(f, w_p); CANARY(); }
